@@ -60,6 +60,24 @@ def make_case(rng, big=False):
         if not nums:
             return None
         part = rng.sample(order, rng.choice([1, 1, 2]) if len(order) > 1 else 1)
+        if rng.random() < 0.5:
+            # the partition key is RE-DEFINED by a plain extend immediately before the window (the SQL generator may merge the two
+            # SELECTs; the window must still partition by the NEW key)
+            k = part[0]
+            others = [c for c in order if c not in part]
+            if colty.get(k) in ("int", "float"):
+                e = f"({k} > {rng.choice([0, 1, 2])}).if_else(1, 0)"
+            elif others:
+                e = rng.choice(others)
+            else:
+                e = None
+            if e is not None:
+                src = {"op": "extend", "src": src, "ops": {k: e}}
+                colty = dict(colty)
+                colty[k] = "int" if "if_else" in e else colty[e]
+                nums = pipes.cols_of(colty, "num")
+                info["src"] = src
+                info["rekeyed"] = True
         vals = [c for c in nums if c not in part] or nums
         fn = rng.choice(["sum", "mean", "min", "max", "count", "size"])
         v = rng.choice(vals)
